@@ -10,6 +10,7 @@ import (
 
 	"github.com/sdcio/cache/proto/cachepb"
 	"github.com/sdcio/data-server/pkg/cache"
+	"github.com/sdcio/data-server/pkg/config"
 	"github.com/sdcio/data-server/pkg/datastore/target"
 	"github.com/sdcio/data-server/pkg/datastore/types"
 	dschema "github.com/sdcio/data-server/pkg/schema"
@@ -42,6 +43,9 @@ func (s stepIntent) String() string {
 	return fmt.Sprintf("%s(%s,p%d,%s)", s.Kind, s.Owner, s.Prio, model.SortedMap(s.Vals))
 }
 
+// tvOverride, if set by the check of this worker process, chooses the typed value that carries a lexical value.
+var tvOverride func(path, lex string) *sdcpb.TypedValue
+
 func (s stepIntent) req() *sdcpb.TransactionIntent {
 	r := &sdcpb.TransactionIntent{Intent: s.Owner, Priority: s.Prio, Delete: s.Delete, Orphan: s.Orphan}
 	keys := make([]string, 0, len(s.Vals))
@@ -50,7 +54,13 @@ func (s stepIntent) req() *sdcpb.TransactionIntent {
 	}
 	sort.Strings(keys)
 	for _, k := range keys {
-		r.Update = append(r.Update, &sdcpb.Update{Path: model.Parse(k).ToPb(), Value: model.MkTv(s.Vals[k])})
+		tv := model.MkTv(s.Vals[k])
+		if tvOverride != nil {
+			if o := tvOverride(k, s.Vals[k]); o != nil {
+				tv = o
+			}
+		}
+		r.Update = append(r.Update, &sdcpb.Update{Path: model.Parse(k).ToPb(), Value: tv})
 	}
 	return r
 }
@@ -64,6 +74,8 @@ type hist struct {
 	mkTarget func() target.Target
 	// schemaDec / cacheDec, if set, decorate the collaborators of the next datastore
 	schemaDec func(dschema.Client) dschema.Client
+	// validation, if set, is the validation configuration of the next datastore
+	validation *config.Validation
 	// noOrphan: never draw only-intended deletes (they leave unmanaged values on the device)
 	noOrphan bool
 }
@@ -98,7 +110,7 @@ func apiCall(res *core.CaseResult, what string, f func()) (panicked bool) {
 
 func (h *hist) start(rng *core.Rng, res *core.CaseResult, withRunning bool, views bool) *histRun {
 	fc := fixture.NewFaultCache(h.env.Cache)
-	opts := fixture.DSOpts{Cache: fc, Views: views}
+	opts := fixture.DSOpts{Cache: fc, Views: views, Validation: h.validation}
 	if h.mkTarget != nil {
 		opts.Target = h.mkTarget()
 	}
@@ -435,6 +447,10 @@ func (r *histRun) checkDevice(tag string, rsp *sdcpb.TransactionSetResponse) {
 			continue
 		}
 		if r.m.Ever[k] {
+			if presenceContainers[k] && hasDescendant(D, k) {
+				// a presence container that holds a node exists by necessity: {/pres/b} cannot be represented without /pres
+				continue
+			}
 			if !r.m.Orphaned[k] {
 				r.res.Violate("C01/stale"+featureOf(k), "%s: device still has %s=%s although no live intent defines it\n  model: %s", tag, k, dv, r.m)
 			}
@@ -523,4 +539,14 @@ func (r *histRun) dumps() (map[string]string, map[string]string) {
 	im, _ := fixture.IntendedMap(d)
 	cm, _ := fixture.DumpStore(r.ctx, r.h.env.Cache, r.ds.Name, cachepb.Store_CONFIG)
 	return im, cm
+}
+
+// hasDescendant: m holds a path below p.
+func hasDescendant(m map[string]string, p string) bool {
+	for k := range m {
+		if strings.HasPrefix(k, p+"/") {
+			return true
+		}
+	}
+	return false
 }
